@@ -41,6 +41,8 @@ static Verdict runCase(const EncCase& c, Info& info)
     }
 
     auto exp = model::referenceLayout(lp, c.maxB);
+    // frames that hold no message are not compared (see above); zero-length-payload packets can leave such frames behind
+    exp.erase(std::remove_if(exp.begin(), exp.end(), [](const model::LayoutFrame& f) { return f.messages.empty(); }), exp.end());
     auto describe = [](const std::vector<model::LayoutFrame>& fs) {
         std::ostringstream os;
         for (const auto& f : fs)
@@ -80,6 +82,12 @@ static Verdict runCase(const EncCase& c, Info& info)
         static const char* ov[] = {"overload_packet_iterators", "overload_shared_ptr_iterators", "overload_forward_list_iterators", "overload_single_packet"};
         info.tag(ov[(c.overload % 4 == 3 && c.packets.size() != 1) ? 0 : c.overload % 4]);
     }
+    for (const auto& r : c.packets)
+        if (r.emptyPayload)
+        {
+            info.tag("batch_with_zero_length_payload_packet");
+            break;
+        }
     if (k.segmented)
         info.tag("segmented");
     if (k.aggregated)
@@ -129,7 +137,30 @@ int main(int argc, char** argv)
         p.maxBatch = tier ? 40 : 12;
         p.beyond16Bit = true;
         p.boundaryWeight = 10;
-        return withPriorCalls(genEncCase(p), p);
+        // the C07 domain has payload lengths 1..65535; one case in six goes beyond it with packets whose payload is empty: they
+        // put no message on the wire, and the rules for the packets around them (frame of their own message type, batch order,
+        // appending only to a frame of the same type) must hold all the same
+        return rc::gen::exec([p]() {
+            EncCase c = *withPriorCalls(genEncCase(p), p);
+            if (*range<int>(0, 5) == 0)
+            {
+                int k = *range<int>(1, 3);
+                for (int j = 0; j < k; ++j)
+                {
+                    PacketRecipe z;
+                    z.kind = rkGeneric;
+                    z.msgType = *rc::gen::element<uint8_t>(1, 2, 3, 0xFF);
+                    z.ptype = *rc::gen::element<uint8_t>(0x01, 0x20, 0xFF);
+                    z.len = 0;
+                    z.emptyPayload = 1;
+                    size_t at = *rc::gen::weightedOneOf<size_t>({{1, rc::gen::just<size_t>(0)}, {1, rc::gen::just(c.packets.size())}, {2, range<size_t>(0, c.packets.size())}});
+                    c.packets.insert(c.packets.begin() + static_cast<std::ptrdiff_t>(at), z);
+                }
+                if (c.overload % 4 == 3)
+                    c.overload = 0;
+            }
+            return c;
+        });
     };
     prop.run = runCase;
     return pbtMain(argc, argv, prop);
